@@ -11,7 +11,8 @@ RULE = (
     "exactly n_points finite strictly increasing values, first == start, last == stop (n>=2), equal spacing "
     "on the linear/log scale (1e-9). discrete: every category class from a pool of field-value tuples "
     "(enumerated exhaustively) + random tuples; accepted <=> dataclass type with values numerically 0,1,2,.. "
-    "(python int/float/bool), then to_jax() == codes. non-trivial = accepted-and-materialised or rejected "
+    "(python int/float/bool), then to_jax() == codes. in situ: icontract class invariants / post-conditions on "
+    "the real grid classes while generated models are built and processed by the real pipeline. non-trivial = accepted-and-materialised or rejected "
     "cases with a well-defined expectation; distinct = distinct argument tuples."
 )
 ASSUMPTIONS = [
@@ -20,8 +21,8 @@ ASSUMPTIONS = [
     "spans below the floating-point resolution of the bounds are a recorded known finding",
 ]
 BATCH = {"quick": 1, "thorough": 1}
-FLOORS = {"quick": {"grids_constructed": 10000, "accepted_materialised": 500, "rejected": 5000, "discrete_classes": 60},
-          "thorough": {"grids_constructed": 50000, "accepted_materialised": 5000, "rejected": 10000, "discrete_classes": 2000}}
+FLOORS = {"quick": {"grids_constructed": 10000, "accepted_materialised": 500, "rejected": 5000, "discrete_classes": 60, "insitu_grids_checked": 300, "insitu_models_built": 100},
+          "thorough": {"grids_constructed": 50000, "accepted_materialised": 5000, "rejected": 10000, "discrete_classes": 2000, "insitu_grids_checked": 3000, "insitu_models_built": 1000}}
 
 
 def _pool():
@@ -62,6 +63,8 @@ def plan(tier, seed):
     for k in range(nr):
         cases.append({"kind": "cont_random", "n": 400 if tier == "quick" else 2500, "seed": [seed, 162, k], "env": {"VERIF_X64": "1"}})
     cases.append({"kind": "disc_exhaustive", "seed": [seed, 163, 0], "env": {"VERIF_X64": "1"}})
+    for k in range(6 if tier == "quick" else 30):
+        cases.append({"kind": "insitu", "n": 25 if tier == "quick" else 60, "seed": [seed, 165, k], "env": {"VERIF_X64": "1" if k % 3 else "0"}})
     for k in range(4 if tier == "quick" else 28):
         cases.append({"kind": "disc_random", "n": 60 if tier == "quick" else 300, "seed": [seed, 164, k], "env": {"VERIF_X64": "1"}})
     return cases
@@ -272,6 +275,37 @@ def run_case(case):
         samples = [n for n, _ in _disc_pool()[:6]]
         res["sig"] = "disc_exhaustive"
         res["exhaustive_chunk"] = True
+    elif case["kind"] == "insitu":
+        # W6: icontract class invariants on the real grid classes while generated models are
+        # built and processed by the real pipeline
+        from lcm.input_processing import process_model
+
+        from vlib import contracts, dsl, gen
+
+        undo = contracts.install_grid_contracts()
+        try:
+            for j in range(case["n"]):
+                r2 = np.random.default_rng([int(x) for x in case["seed"]] + [j])
+                desc, _ = gen.gen_model(r2, feats=gen.draw_features(r2, j))
+                try:
+                    m = dsl.build_lcm_model(desc)
+                    im = process_model(m)
+                    for name, g in im.grids.items():
+                        np.asarray(g)
+                    add("insitu_models_built")
+                except (contracts.InvariantBroken, contracts.PostBroken) as e:
+                    res["violations"].append({"key": "insitu_contract_broken", "what": f"grid contract broken while building a generated model: {str(e)[-200:]}"})
+                if len(samples) < 2:
+                    samples.append({v: sp for v, sp in desc["states"] + desc["choices"]})
+            for f in contracts.drain():
+                if not any(f["what"] in v["what"] for v in res["violations"]):
+                    res["violations"].append(f)
+        finally:
+            undo()
+        for k, v in contracts.COUNTERS.items():
+            add(k, v)
+        contracts.COUNTERS.clear()
+        res["sig"] = f"insitu{case['seed']}"
     else:
         for _ in range(case["n"]):
             k = int(rng.integers(1, 7))
